@@ -334,6 +334,13 @@ theorem cancelDefault_impure (W : Nat) (p : Pool) (h : p.pure = false)
     simp only [cancel, h, cancelAmounts, hge, if_false, Bool.false_eq_true]
     congr 2 <;> omega
 
+theorem cancelSdk_pure (W : Nat) (p : Pool) (h : p.pure = true) (hw : 1 ≤ W) (hl : p.long < 2 ^ W) :
+    cancelSdk W p = some (cancel p) := by
+  unfold cancelSdk
+  by_cases ho : Gmx.Gen.sdkOverridesCancel = true
+  · rw [if_pos ho]
+  · rw [if_neg ho]; exact cancelDefault_pure W p h hw hl
+
 theorem step_long_lt (W : Nat) (p q : Pool) (o : Op) (hp : p.long < 2 ^ W)
     (h : step W p o = some q) (hpure : p.pure = true) : q.long < 2 ^ W := by
   have hpowI : ((2 : Int) ^ W) = ((2 ^ W : Nat) : Int) := by simp
@@ -356,7 +363,7 @@ theorem runSdk_eq_run (W : Nat) (ops : List Op) : ∀ (p : Pool), p.pure = true 
     intro p hp hw hl
     have hs : stepSdk W p o = step W p o := by
       cases o with
-      | cancel => simp only [stepSdk, step]; exact cancelDefault_pure W p hp hw hl
+      | cancel => simp only [stepSdk, step]; exact cancelSdk_pure W p hp hw hl
       | long d => rfl
       | short d => rfl
     simp only [runSdk, run, hs]
